@@ -190,7 +190,8 @@ def _patch_list():
         patch = os.path.join(d, 'patch.diff')
         if os.path.exists(meta) and os.path.exists(patch):
             m = json.load(open(meta))
-            out.append(('seeded/' + os.path.basename(d), m['property'],
+            out.append(('seeded/' + os.path.basename(d),
+                        m.get('property_checked_under', m['property']),
                         patch))
     return out
 
